@@ -1,0 +1,27 @@
+//go:build verif
+
+package nano
+
+// Contracts for govc (contract-based deductive verification, see /verif/DESIGN.md).
+// Comments only; compiled only with the build tag `verif`.
+
+//@ arith bv
+//@ property C06
+//@ assumption UnixNanoID/UnixNanoNoLockID: the counter stays below math.MaxInt64 (2^63-1 ids)
+//
+//@ guarded UnixNanoID.current by UnixNanoID.Mutex
+//@ monitor UnixNanoID.Mutex
+//@   invariant true
+//
+//@ func UnixNanoID.GenIDByTS
+//@   requires !held(n.Mutex)
+//@   ensures #increasing cs(n.current) < 9223372036854775807 ==> result > cs(n.current)
+//@   ensures #state n.current == result
+//@   ensures #clock cs(n.current) < 9223372036854775807 ==> result >= ts
+//@   modifies n.current
+//
+//@ func UnixNanoNoLockID.GenIDByTS
+//@   ensures #increasing old(n.current) < 9223372036854775807 ==> result > old(n.current)
+//@   ensures #state n.current == result
+//@   ensures #clock old(n.current) < 9223372036854775807 ==> result >= ts
+//@   modifies n.current
